@@ -20,7 +20,7 @@ RunNFA(p, live, sticky, prevEnd, lastNL, cs) ==
     IF cs = <<>> THEN sticky \/ live \cap FinEnd[p] # {} \/ (lastNL /\ prevEnd)
     ELSE LET c == Head(cs)
              nxt == UNION {Delta[p][q][c] : q \in live}
-         IN RunNFA(p, nxt, sticky \/ nxt \cap FinNoEnd[p] # {}, live \cap FinEnd[p] # {}, c = NLClass, Tail(cs))
+         IN RunNFA(p, nxt, sticky \/ nxt \cap FinNoEnd[p] # {}, live \cap FinEndNL[p] # {}, c = NLClass, Tail(cs))
 AcceptsC(name, cs) == LET p == Idx(name) IN RunNFA(p, {1}, 1 \in FinNoEnd[p], FALSE, FALSE, cs)
 Accepts(name, s) == AcceptsC(name, Classes(s))
 
